@@ -259,9 +259,20 @@ func (e *Env) Drive(bound time.Duration) *Result {
 	var stopWG sync.WaitGroup // async stop goroutines; awaited before the trace is read
 	stop := func() {
 		stopOnce.Do(func() {
+			w.SetHoldActive(true)
 			w.Record(EvStopCall)
 			sc.Signal(g, syscall.SIGTERM, nil, true)
 			w.Record(EvStopRet)
+			if c.KillAfterP > 0 {
+				stopWG.Add(1)
+				go func() {
+					defer stopWG.Done()
+					time.Sleep(time.Duration(c.KillAfterP) * pause)
+					w.Record(EvKillCall)
+					sc.Signal(g, syscall.SIGKILL, nil, false)
+					w.Record(EvKillRet)
+				}()
+			}
 		})
 	}
 	if st := c.Stop; st != nil {
@@ -269,7 +280,7 @@ func (e *Env) Drive(bound time.Duration) *Result {
 		switch st.Trigger {
 		case "event":
 			w.AddHook(func(w *World, ev Event, a *Attempt) {
-				if ev.Seq+1 == st.N && ev.Kind != EvStopCall && ev.Kind != EvStopRet {
+				if ev.Seq+1 == st.N && ev.Step != "" {
 					stopWG.Add(1)
 					go func() { defer stopWG.Done(); stop() }()
 				}
@@ -315,6 +326,9 @@ func (e *Env) Drive(bound time.Duration) *Result {
 		}
 	}
 
+	if c.TimeoutP > 0 {
+		w.SetHoldActive(true)
+	}
 	var done chan *scheduler.Node
 	var consumerWG sync.WaitGroup
 	if c.Done > 0 {
@@ -367,6 +381,11 @@ loop:
 		if n := w.NumEvents(); n != lastN {
 			lastN = n
 			lastProgress = time.Now()
+			if c.Stop != nil && n > 40+12*len(c.Steps) {
+				// the generated trigger was never reached (e.g. a repeating
+				// step keeps the run alive): stop now so that the case ends.
+				stop()
+			}
 		}
 		blocked := w.Blocked()
 		if c.HoldOpen > 0 && !res.HoldReached {
